@@ -143,6 +143,20 @@ struct NoMoveAssignAdlSwap { NoMoveAssignAdlSwap() = default; NoMoveAssignAdlSwa
 struct NeOnly { friend bool operator!=(NeOnly const&, NeOnly const&); };
 struct EqRetExplicitNeBool { friend ExplicitBool operator==(EqRetExplicitNeBool const&, EqRetExplicitNeBool const&); friend bool operator!=(EqRetExplicitNeBool const&, EqRetExplicitNeBool const&); };
 struct EqBoolNeRetExplicit { friend bool operator==(EqBoolNeRetExplicit const&, EqBoolNeRetExplicit const&); friend ExplicitBool operator!=(EqBoolNeRetExplicit const&, EqBoolNeRetExplicit const&); };
+// ---- asymmetric heterogeneous pairs (round 3)
+struct SwB; struct SwD; struct SwF; struct SwH;
+struct SwA { friend void swap(SwA&, SwB&) noexcept; friend void swap(SwB&, SwA&); };                  // (A,B) noexcept, (B,A) may throw
+struct SwB { };
+struct SwC { friend void swap(SwC&, SwD&) noexcept; friend void swap(SwD&, SwC&) noexcept; };         // both noexcept
+struct SwD { };
+struct SwE { friend void swap(SwE&, SwF&) noexcept; };                                                  // one direction missing
+struct SwF { };
+struct SwG { friend void swap(SwG&, SwH&); friend void swap(SwH&, SwG&); };                             // both may throw
+struct SwH { };
+struct ToIntThrow { operator int() const; };
+struct ImplicitFromIntThrow { ImplicitFromIntThrow(int); };
+struct AssignFromIntThrow { AssignFromIntThrow& operator=(int); };
+struct CtA { }; struct CtB { }; struct CtC { CtC() = default; CtC(CtA); CtC(CtB); };
 // ---- callable family with deliberately partial / asymmetric overload sets and qualifiers (parts k0, k1)
 struct KA { };
 struct KB { };
@@ -181,6 +195,11 @@ struct PredVoid { void operator()(KA) const; };
 struct PredPtr { void* operator()(KA) const; };
 struct PredRef { bool& operator()(KA) const; };
 } // namespace z
+// common_type specialised by the "user" in ONE argument order only
+#if !defined(C15_STD_ONLY) && !defined(C15_DEGRADED)
+namespace etl { template <> struct common_type<z::CtA, z::CtB> { using type = z::CtC; }; }
+#endif
+namespace std { template <> struct common_type<z::CtA, z::CtB> { using type = z::CtC; }; }
 '''
 
 # ------------------------------------------------------------------------------------------------ base types
@@ -290,6 +309,10 @@ CALLABLE_CLASSES = ["KD", "RelAll", "RelNoBA", "RelNoAB", "RelNoAA", "RelNoBB", 
                     "PredExplicit", "PredNotBool", "PredNoNot", "PredVoid", "PredPtr", "PredRef"]
 for c in CALLABLE_CLASSES:
     B("z::" + c, "class", "callable_class", special=True)
+for c in ["SwA", "SwB", "SwC", "SwD", "SwE", "SwF", "SwG", "SwH"]:
+    B("z::" + c, "class", "adl_swap_class", special=True)
+for c in ["ToIntThrow", "ImplicitFromIntThrow", "AssignFromIntThrow", "CtA", "CtB", "CtC"]:
+    B("z::" + c, "class", "converting_class", special=True)
 for ret, sig in (("bool", "(KA, KB)"), ("bool", "(KA, KA)"), ("bool", "(KA, KA) noexcept"), ("BoolLike", "(KA&, KB const&)")):
     B(("z::" if ret == "BoolLike" else "") + ret + sig.replace("KA", "z::KA").replace("KB", "z::KB"), "func", "function", prefix=ret, suffix=sig, special=True)
 for cpp, kind, pre, suf in (("bool (z::KA::*)(z::KB) const", "mfp", "bool (KA::*", ")(KB) const"),
@@ -582,18 +605,41 @@ FIXED_TUPLES = {
                           [_t("z::SwapWithInt", "&"), _t("int", "&")], [_t("int", "&"), _t("z::SwapWithInt", "&")],
                           [_t("z::KA", "&"), _t("z::KA", "&")], [_t("z::KA", "&"), _t("z::KB", "&")]],
 }
+# heterogeneous pairs whose two directions differ (exception specification, existence)
+FIXED_TUPLES["is_swappable_with"] += [[_t("z::Sw" + a, "&"), _t("z::Sw" + b, "&")] for a, b in
+                                      ("AB", "BA", "CD", "DC", "EF", "FE", "GH", "HG", "AA", "AD")]
+FIXED_TUPLES["convertible_to"] += [[_t("z::ToInt"), _t("int")], [_t("z::ToIntThrow"), _t("int")], [_t("int"), _t("z::ToIntThrow")],
+                                   [_t("int"), _t("z::ImplicitFromIntThrow")], [_t("z::ImplicitFromIntThrow"), _t("int")],
+                                   [_t("z::CtA"), _t("z::CtC")], [_t("z::CtC"), _t("z::CtA")]]
+FIXED_TUPLES["assignable_from"] += [[_t("z::AssignFromIntThrow", "&"), _t("int")], [_t("int", "&"), _t("z::AssignFromIntThrow")],
+                                    [_t("int", "&"), _t("z::ToInt")], [_t("int", "&"), _t("z::ToIntThrow")], [_t("z::ToInt", "&"), _t("int")],
+                                    [_t("z::CtC", "&"), _t("z::CtA")], [_t("z::CtA", "&"), _t("z::CtC")]]
+FIXED_TUPLES["common_type"] = [[_t("z::CtA"), _t("z::CtB")], [_t("z::CtB"), _t("z::CtA")], [_t("z::CtA", "&"), _t("z::CtB", "const", "&")],
+                               [_t("z::CtA", "const"), _t("z::CtB", "volatile")], [_t("z::CtB", "&&"), _t("z::CtA", "&&")],
+                               [_t("z::CtA"), _t("z::CtC")], [_t("z::CtC"), _t("z::CtB")],
+                               [_t("z::CtA"), _t("z::CtB"), _t("z::CtC")], [_t("z::CtC"), _t("z::CtA"), _t("z::CtB")],
+                               [_t("z::CtA", "&"), _t("z::CtB"), _t("z::CtB")], [_t("int"), _t("long"), _t("z::ToInt")]]
+FIXED_TUPLES["common_with"] = [x for x in FIXED_TUPLES["common_type"] if len(x) == 2]
 FIXED_TUPLES["is_convertible"] = FIXED_TUPLES["convertible_to"]
 FIXED_TUPLES["is_nothrow_convertible"] = FIXED_TUPLES["convertible_to"]
 FIXED_TUPLES["is_constructible"] = FIXED_TUPLES["constructible_from"] + [list(reversed(x)) for x in FIXED_TUPLES["convertible_to"]]
 FIXED_TUPLES["is_base_of"] = [list(reversed(x)) for x in FIXED_TUPLES["derived_from"]]
 FIXED_TUPLES["is_assignable"] = FIXED_TUPLES["assignable_from"]
+FIXED_TUPLES["is_nothrow_assignable"] = FIXED_TUPLES["assignable_from"]
+FIXED_TUPLES["is_trivially_assignable"] = FIXED_TUPLES["assignable_from"]
+FIXED_TUPLES["is_nothrow_constructible"] = FIXED_TUPLES["is_constructible"]
+FIXED_TUPLES["is_trivially_constructible"] = FIXED_TUPLES["is_constructible"]
+# every place a type may be void gets all four cv-void spellings (both positions, and against a non-void type)
+CV_VOID = [_t("void"), _t("void", "const"), _t("void", "volatile"), _t("void", "const", "volatile")]
+VOID_PAIRS = [[a, b] for a in CV_VOID for b in CV_VOID] + [[a, _t("int")] for a in CV_VOID] + [[_t("int"), a] for a in CV_VOID] \
+    + [[a, _t("int", "&")] for a in CV_VOID[1:]] + [[_t("void", "*"), a] for a in CV_VOID[1:]]
 FIXED_TUPLES["is_nothrow_swappable_with"] = FIXED_TUPLES["is_swappable_with"]
 
 
 def fixed_tuples(trait, lv, names):
     byname = {t.base.cpp: t for t in lv[0]}
     out = []
-    for tup in FIXED_TUPLES.get(trait, []):
+    for tup in FIXED_TUPLES.get(trait, []) + VOID_PAIRS:
         ts = []
         for cpp, chain in tup:
             t = byname[cpp]
@@ -700,6 +746,9 @@ def unary_types(lv, dom, trait, seed, tier, keys=("u_n1", "u_n2")):
             out += pool
         else:
             out += seeded(seed, "unary", trait, level).sample(pool, n)
+    have = set(t.name for t in out)
+    for lvl in lv[1:]:     # all four cv-void spellings, always
+        out += [t for t in lvl if t.base.cpp == "void" and all(d in ("const", "volatile") for d in t.decs) and dom(t) and t.name not in have]
     return out
 
 
@@ -822,7 +871,12 @@ def build_obligations(part, lv, allt, names, seed, tier):
             what = "invocable" if trait in ("is_invocable", "invoke_result") else "generic"
             pairs = gen_pairs(lv, names, seed, what, sz["pairs"])
             have_pairs = set((a.name, b.name) for a, b in pairs)
-            pairs = pairs + [(x[0], x[1]) for x in fixed_tuples(trait, lv, names) if (x[0].name, x[1].name) not in have_pairs]
+            fixed = fixed_tuples(trait, lv, names)
+            pairs = pairs + [(x[0], x[1]) for x in fixed if len(x) == 2 and (x[0].name, x[1].name) not in have_pairs]
+            for x in fixed:
+                if len(x) == 3:
+                    obs.append(Ob("%s<%s>" % (trait, ", ".join(t.name for t in x)), pair_tag(trait, x), pair_flags(x),
+                                  "c15::%s_%s<%s>()" % (kind, trait, ", ".join(A(t) for t in x)), "binary"))
             for a, b in pairs:
                 obs.append(Ob("%s<%s, %s>" % (trait, a.name, b.name), pair_tag(trait, (a, b)), pair_flags((a, b)),
                               "c15::%s_%s<%s, %s>()" % (kind, trait, A(a), A(b)), "binary"))
@@ -848,7 +902,7 @@ def build_obligations(part, lv, allt, names, seed, tier):
     elif part == "c1":
         for cn in BINARY_CONCEPTS:
             what = "invocable" if cn in ("invocable", "regular_invocable", "predicate") else "generic"
-            for a, b in gen_pairs(lv, names, seed, what, sz["cpairs"]) + [(x[0], x[1]) for x in fixed_tuples(cn, lv, names)]:
+            for a, b in gen_pairs(lv, names, seed, what, sz["cpairs"]) + [(x[0], x[1]) for x in fixed_tuples(cn, lv, names) if len(x) == 2]:
                 obs.append(Ob("%s<%s, %s>" % (cn, a.name, b.name), pair_tag(cn, (a, b)), pair_flags((a, b)),
                               "c15::C_%s<%s, %s>()" % (cn, A(a), A(b)), "concepts"))
         rels = ["bool(int, int)", "z::LessInt", "z::Functor", "z::Lambda", "int", "void (z::Poly::*)()", "int(int)"]
@@ -913,6 +967,41 @@ def build_obligations(part, lv, allt, names, seed, tier):
                 for op in ("equal", "not_equal", "less", "less_equal", "greater", "greater_equal"):
                     obs.append(Ob("ratio_%s<%s>" % (op, nm), "ratio_%s.%s" % (op, cls), fl,
                                   "c15::R_%s<%s>()" % (op, targ), "ratio"))
+        # ---- every predefined SI typedef against the std typedef of the same name, alone and as operand of every operation
+        SI = [("atto", 1, 10 ** 18), ("femto", 1, 10 ** 15), ("pico", 1, 10 ** 12), ("nano", 1, 10 ** 9), ("micro", 1, 10 ** 6),
+              ("milli", 1, 1000), ("centi", 1, 100), ("deci", 1, 10), ("deca", 10, 1), ("hecto", 100, 1), ("kilo", 1000, 1),
+              ("mega", 10 ** 6, 1), ("giga", 10 ** 9, 1), ("tera", 10 ** 12, 1), ("peta", 10 ** 15, 1), ("exa", 10 ** 18, 1)]
+        for nm, n, d in SI:
+            obs.append(Ob("ratio typedef %s" % nm, "ratio_typedef." + nm, 1, "c15::R_alias<etl::%s, std::%s>()" % (nm, nm), "ratio"))
+        rng = seeded(seed, "si")
+        si_pairs = [(x, y) for x in SI for y in SI]
+        some = set((x[0], y[0]) for x, y in rng.sample(si_pairs, 48 if tier == "quick" else len(si_pairs)))
+        for (n1, a1, b1), (n2, a2, b2) in si_pairs:
+            f1, f2 = Fraction(a1, b1), Fraction(a2, b2)
+            naive = not all(fits(x) for x in (a1 * b2, a2 * b1, b1 * b2, a1 * a2, a1 * b2 + a2 * b1, a1 * b2 - a2 * b1))
+            cls = "naive_overflow" if naive else "small"
+            for op in ("add", "subtract", "multiply", "divide"):
+                if op in ("add", "subtract") and (n1, n2) not in some:
+                    continue
+                res = {"add": f1 + f2, "subtract": f1 - f2, "multiply": f1 * f2, "divide": f1 / f2}[op]
+                if not (fits(res.numerator) and fits(res.denominator)):
+                    continue
+                obs.append(Ob("ratio_%s<%s, %s>" % (op, n1, n2), "ratio_%s.%s" % (op, cls), 1,
+                              "c15::R_alias<etl::ratio_%s<etl::%s, etl::%s>, std::ratio_%s<std::%s, std::%s>>()" % (op, n1, n2, op, n1, n2),
+                              "ratio", std_filter=True))
+            for op in ("equal", "not_equal", "less", "less_equal", "greater", "greater_equal"):
+                if op not in ("equal", "less") and (n1, n2) not in some:
+                    continue
+                obs.append(Ob("ratio_%s<%s, %s>" % (op, n1, n2), "ratio_%s.%s" % (op, cls), 1,
+                              "c15::R_cmp<etl::ratio_%s<etl::%s, etl::%s>, std::ratio_%s<std::%s, std::%s>>()" % (op, n1, n2, op, n1, n2),
+                              "ratio"))
+        # ---- predefined constants / aliases of the trait and limits surface, by name
+        for nm in ("true_type", "false_type", "bool_constant<true>", "bool_constant<false>"):
+            obs.append(Ob(nm, "integral_constant.alias", 1, "c15::X_const_alias<etl::%s, std::%s>()" % (nm, nm), "misc"))
+        for nm in ("round_indeterminate", "round_toward_zero", "round_to_nearest", "round_toward_infinity", "round_toward_neg_infinity",
+                   "denorm_indeterminate", "denorm_absent", "denorm_present"):
+            obs.append(Ob(nm, "numeric_limits.enumerator." + nm, 1,
+                          "c15::X_value_eq<static_cast<long long>(etl::%s), static_cast<long long>(std::%s)>()" % (nm, nm), "limits"))
         # ---- _meta list operations against hand expansion (expected results computed here)
         rng = seeded(0, "meta")
         p0 = [t for t in lv[0] if not t.inc and not t.base.special]
@@ -950,6 +1039,7 @@ def build_obligations(part, lv, allt, names, seed, tier):
                           "c15::X_integral_constant<%s, %s>()" % (ty, v), "misc"))
         sm = [byname[x] for x in ("int", "void", "z::Agg", "z::Abstract", "void() const", "double")]
         sm = sm + [names[apply_chain(t, c).name] for t in sm[:3] for c in (("&",), ("const",), ("[]",))]
+        sm = sm + [names[apply_chain(byname["void"], c).name] for c in (("volatile",), ("const", "volatile"))]
         for a in sm:
             obs.append(Ob("enable_if<true, %s>" % a.name, "enable_if", a.flags(), "c15::X_enable_if<true, %s>()" % A(a), "misc"))
             obs.append(Ob("enable_if<false, %s>" % a.name, "enable_if", a.flags(), "c15::X_enable_if<false, %s>()" % A(a), "misc"))
@@ -1005,7 +1095,7 @@ def build_obligations(part, lv, allt, names, seed, tier):
             nm = "%s<%s>" % (trait, ", ".join(t.name for t in ts))
             return Ob(nm, pair_tag(trait, ts), pair_flags(ts) | 1, "c15::%s_%s<%s>()" % (kind, trait, ", ".join(A(t) for t in ts)), sub)
         if part == "k0":
-            callables = [t for t in lv[0] if t.base.special and t.base.cpp != "z::KD"] + [byname[x] for x in ("z::Functor", "z::LessInt", "z::Lambda")]
+            callables = [t for t in lv[0] if t.base.special and t.base.cpp != "z::KD" and t.base.cls not in ("adl_swap_class", "converting_class")] + [byname[x] for x in ("z::Functor", "z::LessInt", "z::Lambda")]
             canon = [(), (A_,), (A_, A_), (A_, B_), (B_, A_), (B_, B_), (args7[2],), (args7[3],)]
             alltup = [(a,) for a in argsx] + [(a, b) for a in argsx for b in argsx]
             for f in callables:
@@ -1015,8 +1105,9 @@ def build_obligations(part, lv, allt, names, seed, tier):
                     for tup in tups:
                         for trait, kind in K_INVOCABLE.items():
                             obs.append(nary(kind, trait, (fd,) + tuple(tup), "concepts" if kind == "C" else "binary"))
-                for r in (byname["bool"], byname["void"], byname["z::BoolLike"]):
-                    for tup in canon[1:6]:
+                cvv = [mk(v) for v in CV_VOID]
+                for r in [byname["bool"], byname["z::BoolLike"]] + cvv:
+                    for tup in (canon[1:6] if r in (byname["bool"], byname["void"]) else canon[1:4]):
                         obs.append(nary("V", "is_invocable_r", (r, f) + tuple(tup), "binary"))
         else:
             extra_pairs = [(mk(_t("z::Key")), byname["int"]), (byname["int"], mk(_t("z::Key"))), (mk(_t("z::Key")), mk(_t("z::Key"))),
